@@ -248,20 +248,20 @@ impl World {
     fn collect_real(&self, it: &IterSpec) -> LeanString {
         let (h, p, l) = (it.hint, it.panic_at, it.loose);
         match it.kind {
-            IterKind::Char => PlanIter::new(flat_chars(&it.items).into_iter(), h, p).loose(l).collect(),
+            IterKind::Char => PlanIter::new(flat_chars(&it.items).into_iter(), h, p).loose(l).upper(it.upper).collect(),
             IterKind::RefChar => {
                 let v = flat_chars(&it.items);
-                PlanIter::new(v.iter(), h, p).loose(l).collect()
+                PlanIter::new(v.iter(), h, p).loose(l).upper(it.upper).collect()
             }
-            IterKind::Str => PlanIter::new(it.items.iter().map(|s| s.as_str()), h, p).loose(l).collect(),
-            IterKind::String => PlanIter::new(it.items.clone().into_iter(), h, p).loose(l).collect(),
-            IterKind::BoxStr => PlanIter::new(it.items.iter().map(|s| s.clone().into_boxed_str()), h, p).loose(l).collect(),
-            IterKind::CowB => PlanIter::new(it.items.iter().map(|s| Cow::Borrowed(s.as_str())), h, p).loose(l).collect(),
-            IterKind::CowO => PlanIter::new(it.items.iter().map(|s| Cow::<str>::Owned(s.clone())), h, p).loose(l).collect(),
+            IterKind::Str => PlanIter::new(it.items.iter().map(|s| s.as_str()), h, p).loose(l).upper(it.upper).collect(),
+            IterKind::String => PlanIter::new(it.items.clone().into_iter(), h, p).loose(l).upper(it.upper).collect(),
+            IterKind::BoxStr => PlanIter::new(it.items.iter().map(|s| s.clone().into_boxed_str()), h, p).loose(l).upper(it.upper).collect(),
+            IterKind::CowB => PlanIter::new(it.items.iter().map(|s| Cow::Borrowed(s.as_str())), h, p).loose(l).upper(it.upper).collect(),
+            IterKind::CowO => PlanIter::new(it.items.iter().map(|s| Cow::<str>::Owned(s.clone())), h, p).loose(l).upper(it.upper).collect(),
             IterKind::Lean | IterKind::LeanSlots => {
                 let items = self.lean_items(it);
                 shadow::with(|hp| hp.events.clear());
-                PlanIter::new(items.into_iter(), h, p).loose(l).collect()
+                PlanIter::new(items.into_iter(), h, p).loose(l).upper(it.upper).collect()
             }
         }
     }
@@ -272,17 +272,17 @@ impl World {
         shadow::with(|hp| hp.events.clear());
         let s = self.slots[slot as usize].as_mut().unwrap();
         match it.kind {
-            IterKind::Char => s.extend(PlanIter::new(flat_chars(&it.items).into_iter(), h, p).loose(l)),
+            IterKind::Char => s.extend(PlanIter::new(flat_chars(&it.items).into_iter(), h, p).loose(l).upper(it.upper)),
             IterKind::RefChar => {
                 let v = flat_chars(&it.items);
-                s.extend(PlanIter::new(v.iter(), h, p).loose(l))
+                s.extend(PlanIter::new(v.iter(), h, p).loose(l).upper(it.upper))
             }
-            IterKind::Str => s.extend(PlanIter::new(it.items.iter().map(|s| s.as_str()), h, p).loose(l)),
-            IterKind::String => s.extend(PlanIter::new(it.items.clone().into_iter(), h, p).loose(l)),
-            IterKind::BoxStr => s.extend(PlanIter::new(it.items.iter().map(|s| s.clone().into_boxed_str()), h, p).loose(l)),
-            IterKind::CowB => s.extend(PlanIter::new(it.items.iter().map(|s| Cow::Borrowed(s.as_str())), h, p).loose(l)),
-            IterKind::CowO => s.extend(PlanIter::new(it.items.iter().map(|s| Cow::<str>::Owned(s.clone())), h, p).loose(l)),
-            IterKind::Lean | IterKind::LeanSlots => s.extend(PlanIter::new(items.into_iter(), h, p).loose(l)),
+            IterKind::Str => s.extend(PlanIter::new(it.items.iter().map(|s| s.as_str()), h, p).loose(l).upper(it.upper)),
+            IterKind::String => s.extend(PlanIter::new(it.items.clone().into_iter(), h, p).loose(l).upper(it.upper)),
+            IterKind::BoxStr => s.extend(PlanIter::new(it.items.iter().map(|s| s.clone().into_boxed_str()), h, p).loose(l).upper(it.upper)),
+            IterKind::CowB => s.extend(PlanIter::new(it.items.iter().map(|s| Cow::Borrowed(s.as_str())), h, p).loose(l).upper(it.upper)),
+            IterKind::CowO => s.extend(PlanIter::new(it.items.iter().map(|s| Cow::<str>::Owned(s.clone())), h, p).loose(l).upper(it.upper)),
+            IterKind::Lean | IterKind::LeanSlots => s.extend(PlanIter::new(items.into_iter(), h, p).loose(l).upper(it.upper)),
         }
     }
 
